@@ -120,15 +120,10 @@ CLAIMED = {
     ),
     "C15": dict(
         category="proof",
-        text="Closed theorems: the expansion order of the aggregation dictionary is a complete topological listing of its keys "
-             "(Kahn soundness), and ANY dependency cycle among the keys makes the expansion fail, so no result is produced. The "
-             "linearity / path-sum statement is an executable specification (paths, spec_value) compared inside Coq with the real "
-             "add_aggregated_resources on every graph over 3 names (quick) / 4 names (thorough), both removal modes, random subsets "
-             "of resources present, plus random graphs to 6 names with symbolic multipliers; the caller's dictionary must be left "
-             "unchanged. Partial: expand = path-sum is not yet proved as a theorem.",
+        text="Closed theorems, for dictionaries of any size and nesting depth and any rational multipliers: the expansion order is a complete topological listing of the keys and ANY dependency cycle makes the expansion fail (no result); every entry of the expanded dictionary mentions base resources only and carries the TOTAL multiplier along all decomposition paths (expand_dict_is_path_sum); applying it to a routine's resources leaves each base resource with its previous value plus the decomposed resources' previous values times the path-sum multiplier (aggregate_is_linear_path_sum); decomposed resources are removed or kept with type other; resources not decomposed keep their type. The model is tied to add_aggregated_resources by an exhaustive stream: every graph over 3 names (quick) / 4 names (thorough), both removal modes, random subsets of resources present, random graphs to 6 names with symbolic multipliers, the caller's dictionary unchanged. Exercised, not proved: the walk over the hierarchy and symbolic multipliers (the theorems are stated at a numeric point).",
         design_ref="DESIGN.md section 5 C15",
         note="Trusted: Coq kernel; hand model of transform.py tied by the exhaustive/random stream; graphlib.TopologicalSorter.",
-        technique="Coq proof of topological-order soundness and cycle rejection + exhaustive small-graph differential check against a path-sum spec",
+        technique='Coq proof that the model of add_aggregated_resources is the linear path-sum rewrite (unbounded) + exhaustive small-graph differential correspondence',
     ),
     "C16": dict(
         category="proof",
@@ -166,15 +161,10 @@ CLAIMED = {
     ),
     "C02": dict(
         category="proof",
-        text="Closed theorems: the wire law for one merge of compiled port sizes into the parameter map (the variable #p of every "
-             "wired target port holds exactly the compiled size at the other end, given single wiring; any carrier), a port "
-             "variable compiles to what the map holds, and port sizes are covered by the meaning theorem of C01 (go_natural). "
-             "Partial: the composition of these steps along the whole child loop into 'both ends of every connection are equal' is "
-             "checked on every case of the stream on the real compiled trees (all connections, all nodes, 4 rational points) and "
-             "against the bottom-up denotation, not proved end to end.",
+        text="Closed theorems: for EVERY routine the traversal compiles (any carrier): when children have distinct names and no port is the target of two wires, each child is compiled with the variable #q of every wired input/through port bound to exactly the compiled size of the port at the other end -- a port of the parent, or a port of a sibling compiled earlier in the topological order (go_wires); in the compile model a child port declared as its own variable carries exactly that size, so both ends of the wire are equal (wire_ends_equal); the wire law for one merge; sizes are covered by the meaning theorem of C01 (go_natural). The stream checks all connections of all nodes of the real compiled trees at 4 rational points and against the bottom-up denotation. Exercised, not proved: declared (constant / compound) sizes agreeing with the wire is C06's constraint machinery; output ports of routines with children.",
         design_ref="DESIGN.md section 5 C02",
         note="Trusted: Coq kernel; compile model tied by the stream; declared sizes on outputs of routines with children are outside (finding F10, recorded in DESIGN.md).",
-        technique="Coq lemmas on the parameter map (wire law) + differential correspondence on all connections",
+        technique='Coq proof of the wire law for a whole node of the compile model (any carrier) + differential correspondence on all connections',
     ),
     "C03": dict(
         category="proof",
@@ -191,15 +181,10 @@ CLAIMED = {
     ),
     "C04": dict(
         category="proof",
-        text="Closed theorems about the substitution step every compiled expression goes through: for a well-scoped node every "
-             "symbol of the result comes from a value of the scope dictionary (no parameter, local, #port or child.resource key "
-             "survives); a total assignment of closed values leaves no symbol. The stream checks on every real compiled tree that "
-             "all symbols of all resources, sizes, repetition fields and retained constraints are among the node's and the "
-             "root's input_params. Partial: the induction over the tree (values of the dictionary are over top-level inputs) is "
-             "exercised by the stream, not proved.",
+        text="Closed theorems: WHOLE TREE -- if the scoped traversal (the compile step refusing any expression that mentions a symbol neither defined by the node's dictionary nor in G) answers, the compile model answers the same tree and every symbol of every value stored anywhere in it (node inputs, port sizes, resources, repetition counts and sequence fields, retained constraints, at every depth) is in G (compiled_tree_closed, from a generic invariant theorem go_inv valid for every carrier and a refinement theorem go_mono); plus the free-variable lemmas of simultaneous substitution. The stream runs the scoped compile (G = the preprocessed root's parameters, root port symbols, iterator / number-of-terms symbols) on every generated case and reports when it does not answer although the compile model does, and checks on every real compiled tree that all symbols are among the node's and the root's input_params. Partial: iterator symbols are admitted in every field by the theorem (the stream checks them strictly); per-node input_params completeness is exercised.",
         design_ref="DESIGN.md section 5 C04",
         note="Trusted: Coq kernel; compile model tied by the stream; sympy free_symbols.",
-        technique="Coq free-variable lemmas for simultaneous substitution + closure check on real compiled trees",
+        technique='Coq proof of whole-tree closure for the compile model (invariant + refinement of the generic traversal) + closure check on real compiled trees',
     ),
     "C10": dict(
         category="proof",
